@@ -1,5 +1,5 @@
 (** C07 — pinned statements (client packet ids, inflight window, collisions).  Only [Theorem .. exact ..]. *)
-From Rumqtt Require Import Client.Run4 Client.Inv4 Client.Wire4 Client.Findings4 Client.Loop Client.LoopProofs Client.Flow4.
+From Rumqtt Require Import Client.Run4 Client.Inv4 Client.Wire4 Client.Findings4 Client.Loop Client.LoopProofs Client.Flow4 Client.State5 Client.Inv5.
 
 Theorem c07_inv : forall max manual h, 1 <= max -> max <= 65535 -> contract (init max manual) h = true ->
   exists s, run (init max manual) h = Some s /\ Inv s.
@@ -51,3 +51,18 @@ Theorem c07_f7_loop_witness :
     (Client.Loop.lrun (Client.Loop.linit 1 false) Client.LoopProofs.f7_loop_history)
   = Some ([RPublish (mkPub Q1 1 1 1); RPublish (mkPub Q1 1 3 3)], [], [], [PPublish (mkPub Q1 1 1 1)]).
 Proof. exact Client.LoopProofs.f7_loop_witness. Qed.
+
+(* v5: the state invariant (conjuncts a, b, c, f, g; no panic) for rumqttc::v5::MqttState.
+   Not ported to v5 (v5 statements are _partial, covered by correspondence + monitors only):
+   c07_wire (d, e), c07_collision_resolved and the loop-level statements. *)
+Theorem c07_inv_v5_partial : forall max manual h, 1 <= max -> max <= 65535 ->
+  Client.Inv5.contract5 (Client.State5.init5 max manual) h = true ->
+  exists s, Client.Inv5.run5 (Client.State5.init5 max manual) h = Some s /\ Client.Inv5.Inv5 s.
+Proof. exact Client.Inv5.run5_inv_init. Qed.
+
+Theorem c07_step_inv_v5 : forall s o, Client.Inv5.Inv5 s -> Client.Inv5.op_ok5 s o = true ->
+  match Client.State5.step5 s o with Ok (s', _) => Client.Inv5.Inv5 s' | Err (s', _) => Client.Inv5.Inv5 s' | Panic _ => False end.
+Proof. exact Client.Inv5.step5_inv. Qed.
+
+Theorem c07_window_v5 : forall s, Client.Inv5.Inv5 s -> Client.State5.s5_inflight s <= Client.State5.s5_max_limit s.
+Proof. exact Client.Inv5.inv5_bound. Qed.
